@@ -28,6 +28,10 @@ CHECKS = {
          "Every TZif file of the system database without leap records (thorough; quick: 16 awkward + seed-chosen), thousands of synthetic TZif v1-v3 files from random zone models and thousands of random POSIX rules are queried densely around every transition (instants T+{-1,0,1}, wall seconds at both edges of every gap/fold ±2 s, midpoints), over 50 rule years and far years, plus sparse random instants; every instant is also round-tripped through its wall time. A sample of each zone's queries goes through chrono::Local itself. One-second resolution is exhaustive only in the neighbourhoods; zones are a sample of 'all zones'.",
          "Trusted: R-tz oracle (harness/src/reftz.rs, self-tested each run). Rule-governed queries are judged only where the rule's transitions alternate and lie >1 day inside the calendar year (property restriction). Boundary seconds of gaps/folds are exempt except for panics/foreign offsets. Known finding: overlapping gaps/folds of transitions closer together than their offset changes (synthetic zones only).",
          "DESIGN.md §4 C05"),
+ "C07": ("differential runtime monitor against a physical-timeline model of the time of day (a leap operand inserts one extra second), exhaustive acceptance grid for the constructors, per-operand duration catalogues that reach the start/end of the leap second exactly, all ordered pairs for differences",
+         "The model reproduces all 47 leap-second examples of NaiveTime's rustdoc in its self-test, then every (hour, minute, second) tuple × 14 sub-second boundary values is fed to the constructors (exhaustive grid), and additions/subtractions are driven with ~370 durations per operand built to land exactly on, just before and just after the leap second, the next second and midnight, with TimeDelta and std::time::Duration, on NaiveTime, NaiveDateTime and through FixedOffset. Thorough covers every second of the day × 8 fractions × ~200 durations. Sampling elsewhere.",
+         "Trusted: the timeline oracle in harness/src/props/c07.rs (self-tested against the rustdoc examples and a second formulation each run). NaiveDateTime differences across different dates with a leap operand are only checked for antisymmetry (the property does not define them).",
+         "DESIGN.md §4 C07"),
 }
 NOT_YET = {}
 
